@@ -3238,3 +3238,12 @@ impl Point {
         Self { E: c[0], U: c[1], Z: c[2], T: c[3] }
     }
 }
+
+#[cfg(crrl_verif)]
+impl Point {
+    /// Access to the private map (field element to group element) used by
+    /// `hash_to_curve()`.
+    pub fn verif_map_to_curve(f: &GF255s) -> Self {
+        Self::map_to_curve(f)
+    }
+}
